@@ -23,7 +23,7 @@ TECHNIQUE = ('generated workbooks written as xlsx with consistent stored '
              'formula cell in turn x perturbation kind x tolerance x choice '
              'of checked outputs); reference = which cells depend on the '
              'perturbed one'
-             '; unevaluable cells (unknown function, missing sheet) as bystander and as the only output')
+             '; unevaluable cells (unknown function, missing sheet) as bystander, as the only output and as two cells with the same text; tolerance 0 = equality')
 LEVEL_TEXT = ('Fault enumeration: for every sampled workbook every formula '
               'cell is perturbed in turn (number far beyond / far below the '
               'tolerance, 2x / 0.5x the tolerance, other text, negated logical, '
